@@ -5,21 +5,23 @@
 
    Full statement and what is proved here:
    (wire)  export succeeds and import_value+validate on the node gives back a value equal (python ==) to v
-           -- C02_wire_roundtrip_partial: proved for all trees; the binary64 arithmetic of the numeric LEAF types
-              (double, int, scaled) enters as the hypothesis num_leaves num_rt (round trip of every valid value of each
-              numeric leaf type); it is false for scaled grids beyond 2^51 (C02_refuted_scaled_huge) and is exercised
-              by the correspondence on every generated case.  bool, enum, string, blob leaves and all containers
-              (arrays, tuples, structs incl. partial structs of the client side) are proved.
+           -- C02_wire_roundtrip_except_scaled: proved for all trees whose double leaves have finite limits and
+              resolution and whose int leaves have limits within +-2^64 (what the constructors guarantee); bool, enum,
+              string, blob, int and double leaves and all containers (arrays, tuples, structs incl. the partial structs
+              of the client side) are proved, the double/int leaves through Flocq (x+0.0, clamp to +-max, tolerance
+              test, clamp to the limits keep an in-range number; int -> float -> round is exact).  Only for SCALED
+              leaf types the arithmetic fact (every grid value round-trips) remains the hypothesis num_rt: it is false
+              beyond 2^51 (C02_refuted_scaled_huge, open finding) and exercised by the correspondence.
    (json kind)  checked by Run.check_case (kind_ok, strict_json on the model's export) and by the oracle; no theorem.
    (client) the client side type: refuted for strings with minchars>0 and no maxchars (C02_client_string_collapses,
            C02_refuted_client_string); otherwise correspondence + oracle only.
-   (text)  refuted for 1-tuples (C02_one_tuple_text_refused), -0.0 (C02_refuted_negzero_text) and through
-           setParameterFromString for enum/blob/scaled (the C02_setparam theorems); otherwise correspondence + oracle only;
-           C02_setparam_exported_roundtrip shows that with export_value the text path reduces to the wire round trip. *)
+   (text)  refuted for 1-tuples (C02_one_tuple_text_refused) and -0.0 (C02_refuted_negzero_text); otherwise
+           correspondence + oracle only.  setParameterFromString (repaired by 7a693b7: it now exports) is from_string
+           followed by the wire round trip: C02_setparam_roundtrip_except_scaled. *)
 From Coq Require Import ZArith NArith Bool List.
 Import ListNotations.
 Require Import FV.Gen.C02 FV.Base.F64 FV.Base.PyVal FV.C01.Model FV.C01.Lemmas FV.C02.Model FV.C02.Run FV.C02.Lemmas
-  FV.C02.Refuted.
+  FV.C02.LemmasNum FV.C02.Refuted.
 
 (* obligations on the facts regenerated from /repo (Gen/C02.v) *)
 Theorem C02_source_facts :
@@ -27,55 +29,58 @@ Theorem C02_source_facts :
   generic_text_forms = true /\ leaf_text_forms = true /\ container_text_forms = true /\
   bool_false_words = false_words /\ bool_true_words = true_words /\ rebuild_rows = true /\
   string_maxchars_default = true /\ rebuilt_type_is_client = true /\ set_parameter_exports = true /\
-  set_parameter_from_string_exports = false /\ client_update_imports = true /\
+  set_parameter_from_string_exports = true /\ client_update_imports = true /\
   cache_item_str_is_to_string = true /\ frames_are_plain_json = true.
 Proof. repeat split; reflexivity. Qed.
 Print Assumptions C02_source_facts.
 
-Theorem C02_wire_roundtrip_partial : forall E C, b64_law E C ->
-  forall d, num_leaves (num_rt E C) d -> forall v, valid d v = true ->
+Theorem C02_wire_roundtrip_except_scaled : forall E C, b64_law E C ->
+  forall d, num_leaves (leaf_ok E C) d -> forall v, valid d v = true ->
   exists j w v', dt_export C d v = Ok j /\ dt_import E d j = Ok w /\ dt_validate d w PNone = Ok v' /\ py_eq v v' /\
                  w <> PNone.
-Proof. exact wire_roundtrip. Qed.
-Print Assumptions C02_wire_roundtrip_partial.
+Proof. exact wire_roundtrip_except_scaled. Qed.
+Print Assumptions C02_wire_roundtrip_except_scaled.
 
-Theorem C02_setparam_exported_roundtrip : forall C E d t w,
-  b64_law E C -> num_leaves (num_rt E C) d -> from_string C d t = Ok w -> valid d w = true ->
-  exists v', set_from_string_exported C E d d t = Ok v' /\ py_eq w v'.
-Proof. exact setparam_exported_roundtrip. Qed.
-Print Assumptions C02_setparam_exported_roundtrip.
+(* the two numeric leaf facts on their own *)
+Theorem C02_int_leaf_exact : forall z, (Z.abs z <= 2 ^ 64)%Z -> int_call (PInt z) = Ok (PInt z).
+Proof. intros z Hz. apply int_call_exact, of_Z_small_finite, Hz. Qed.
+Print Assumptions C02_int_leaf_exact.
+
+Theorem C02_float_leaf_unchanged : forall mn mx a r g,
+  fis_finite mn = true -> fis_finite mx = true -> fis_finite r = true -> fis_finite g = true ->
+  fle mn g = true -> fle g mx = true ->
+  exists g', float_validate mn mx a r (PFloat g) = Ok (PFloat g') /\ fis_finite g' = true /\
+             BinarySingleNaN.B2R g' = BinarySingleNaN.B2R g.
+Proof. exact float_validate_in_range. Qed.
+Print Assumptions C02_float_leaf_unchanged.
+
+(* setParameterFromString(text) = from_string, export_value, node import_value + validate: an accepted text with a valid
+   value w leaves the node with a value equal to w *)
+Theorem C02_setparam_roundtrip_except_scaled : forall C E d t w,
+  b64_law E C -> num_leaves (leaf_ok E C) d -> from_string C d t = Ok w -> valid d w = true ->
+  exists v', set_from_string C E d d t = Ok v' /\ py_eq w v'.
+Proof. exact setparam_roundtrip_except_scaled. Qed.
+Print Assumptions C02_setparam_roundtrip_except_scaled.
 
 Theorem C02_one_tuple_text_refused : forall C d1 t w,
   lit_eval C t = Some w -> py_len w = None -> from_string C (TTuple [d1]) (PP [t]) = Err EWrongType.
 Proof. exact one_tuple_text_refused. Qed.
 Print Assumptions C02_one_tuple_text_refused.
 
-Theorem C02_setparam_enum_unserialisable : forall C E dc d t n z,
-  from_string C dc t = Ok (PEnum n z) -> set_from_string C E dc d t = Err EType.
-Proof. exact setparam_enum_unserialisable. Qed.
-Print Assumptions C02_setparam_enum_unserialisable.
-
-Theorem C02_setparam_bytes_unserialisable : forall C E dc d t b,
-  from_string C dc t = Ok (PBytes b) -> set_from_string C E dc d t = Err EType.
-Proof. exact setparam_bytes_unserialisable. Qed.
-Print Assumptions C02_setparam_bytes_unserialisable.
-
-Theorem C02_setparam_scaled_truncates : forall C E dc s mn mx t f,
-  from_string C dc t = Ok (PFloat f) ->
-  set_from_string C E dc (TScaled s mn mx) t = scaled_import E s (PFloat f) >>= fun v => scaled_validate s mn mx v.
-Proof. exact setparam_scaled_truncates. Qed.
-Print Assumptions C02_setparam_scaled_truncates.
-
 Theorem C02_client_string_collapses : forall minc u, minc <> 0%Z ->
   client_of (TString minc UNLIMITED u) = Ok (TString minc minc u).
 Proof. exact client_string_collapses. Qed.
 Print Assumptions C02_client_string_collapses.
 
-(* non-vacuity: a nested type without numeric leaves satisfies every hypothesis of the round trip *)
+(* non-vacuity: a nested type with int and double leaves satisfies every hypothesis of the round trip *)
 Definition demo_d : dtype :=
-  TStruct [([97%N], TArray (TEnum [([120%N], 1%Z); ([121%N], 2%Z)]) 0 3); ([98%N], TTuple [TBool; TString 0 5 false])]
+  TStruct [([97%N], TArray (TEnum [([120%N], 1%Z); ([121%N], 2%Z)]) 0 3);
+           ([98%N], TTuple [TBool; TString 0 5 false; TInt 0 5; TFloat fzero (of_Z 10) fzero fzero])]
           [[98%N]] true.
 Definition demo_v : pyval := PDict [([97%N], PTuple [PEnum [121%N] 2; PEnum [120%N] 1])].
-Example C02_demo : valid demo_d demo_v = true /\ num_leaves (num_rt E0 C0) demo_d /\
+Example C02_demo : valid demo_d demo_v = true /\ num_leaves (leaf_ok E0 C0) demo_d /\
   res_same (dt_export C0 demo_d demo_v) (Ok (PDict [([97%N], PList [PInt 2; PInt 1])])) = true.
-Proof. split; [vm_compute; reflexivity|]. split; [cbn; tauto|vm_compute; reflexivity]. Qed.
+Proof.
+  split; [vm_compute; reflexivity|]. split; [|vm_compute; reflexivity].
+  cbn [num_leaves demo_d snd leaf_ok]. repeat split; try reflexivity; vm_compute; discriminate.
+Qed.
